@@ -143,7 +143,7 @@ static int ent_cmp_qsort(const void *a, const void *b)
 	const ent_t *x = a, *y = b;
 	return key_cmp(x->k.p, x->k.n, y->k.p, y->k.n);
 }
-static inline void model_sort(model_t *m) { qsort(m->e, m->n, sizeof(ent_t), ent_cmp_qsort); }
+static inline void model_sort(model_t *m) { if (m->n > 1) qsort(m->e, m->n, sizeof(ent_t), ent_cmp_qsort); }
 /* remove entries with duplicate keys (after sort), keeping the first */
 static inline void model_dedupe(model_t *m)
 {
@@ -215,6 +215,14 @@ static inline void sample(const char *fmt, ...)
 	g_nsamples++;
 	char b[1500]; va_list ap; va_start(ap, fmt); vsnprintf(b, sizeof b, fmt, ap); va_end(ap);
 	printf("X {\"case\":%ld,\"desc\":", g_case); json_str(stdout, b); printf("}\n");
+}
+/* the oracle could not be applied (not a verdict about the library) */
+__attribute__((format(printf, 1, 2)))
+static inline void inconclusive(const char *fmt, ...)
+{
+	char b[600]; va_list ap; va_start(ap, fmt); vsnprintf(b, sizeof b, fmt, ap); va_end(ap);
+	printf("I {\"case\":%ld,\"msg\":", g_case); json_str(stdout, b); printf("}\n");
+	fflush(stdout);
 }
 static inline bool want_sample(void) { return g_nsamples < g_maxsamples; }
 static inline void case_hash(uint64_t h)
